@@ -13,7 +13,9 @@ LEVEL_TEXT = ('Lean 4 theorems, for all shapes/offsets/data: extent queries = se
               'total and yields pairwise non-overlapping fields for every collection of positive-shape fields of any size; a product '
               'fed into merge/reduce/insert keeps emb a · emb b (+ the rest) (product_then_merge/_reduce/_insert); reduce leaves a '
               'pairwise non-overlapping collection unchanged and is idempotent (reduce_of_disjoint, reduce_idempotent); the overlap '
-              'test and product emptiness are symmetric (intersect_comm, mul_empty_comm); boundary = the exact bounding box of '
+              'test and product emptiness are symmetric (intersect_comm, mul_empty_comm); merges and reduced totals do not depend on '
+              'the order of the fields nor on the absolute position (merge_order_independent, merge_translate, merge_translate_extent, '
+              'reduce_order_total, reduce_translate_total); insertions commute and weights add up (insert_comm, insert_weights_add); boundary = the exact bounding box of '
               'the pixel sets for every non-empty collection of extents within ±(2^63 − 1), the range of the initial value sys.maxsize '
               '(boundary_is_bbox, hypothesis hM; boundary_is_bbox_general without it), wholly negative ones included, independent of the '
               'order of the fields and covariant under translation (boundary_order_independent, boundary_translate); public merge = sum of the two embeddings, refused iff overlap is enforced and no pixel is '
